@@ -63,8 +63,8 @@ Theorem C03_set_monitor_refuted :
 Proof. exact m03_refuted. Qed.
 Print Assumptions C03_set_monitor_refuted.
 
-(** Partial (excluded: ObjectSets in which two phases carry the same name): the monitor accepts every pass of the
-    model on an ObjectSet whose phase names are pairwise distinct. *)
+(** Partial (excluded: active ObjectSets with pairwise distinct local keys - the only ones the monitor judges - in which
+    two phases carry the same name): otherwise the monitor accepts every pass of the model. *)
 Theorem C03_set_monitor_sound_partial :
   forall c : scase, phase_names_unique c = true -> m03 (set_obs_s c (SetCorr.model_run c)) = true.
 Proof. exact m03_sound_partial. Qed.
